@@ -106,6 +106,16 @@ func VH_C01_ReadRendered() {
 		for l := 0; l < nl; l++ {
 			cue.lines = append(cue.lines, corpus[(k+3*c+5*l+choose(2)*4)%len(corpus)])
 		}
+		// emphasis tags left open: they hold until closed or until the end of the cue, never beyond it
+		switch (k + c) % 3 {
+		case 1:
+			cue.lines[nl-1] = vtextLine{"<i>open", []vrun{{text: "open", i: true}}}
+		case 2:
+			if nl == 2 {
+				cue.lines[0] = vtextLine{"<b>two", []vrun{{text: "two", b: true}}}
+				cue.lines[1] = vtextLine{"lines</b>end", []vrun{{text: "lines", b: true}, {text: "end"}}}
+			}
+		}
 		model = append(model, cue)
 	}
 	// render
